@@ -50,6 +50,12 @@ def cmd_parse(sim, vp, cmd, res):
     if hasattr(args, "config"):
         args = sys.modules["evo.entry_points"].merge_config(args)
     res["namespace"] = dict(vars(args))
+    settings = sys.modules["evo.tools.settings"]
+    try:
+        setattr(settings.SETTINGS, "zz_not_a_parameter", 1)
+        res["accepts_unknown_after_merge"] = True
+    except settings.SettingsException:
+        res["accepts_unknown_after_merge"] = False
     if cmd.get("table_probe"):
         # what main_res / main_traj run() do for --save_table: the table
         # writer is called without format arguments, the settings decide
@@ -351,13 +357,18 @@ def compare(actual, model, named=None):
     out = []
     if not isinstance(actual, dict):
         return [("not-an-object", None, None, repr(actual)[:60])]
+    # the container's lock flag is not a parameter: whether a file carries it
+    # is immaterial
+    actual = {k: v for k, v in actual.items() if k != sg.RESERVED_KEY}
     for k in model:
+        if k == sg.RESERVED_KEY:
+            continue
         if k not in actual:
             out.append(("key-removed", k, _plain(model[k]), None))
     for k in actual:
         if k not in model:
             out.append(("key-added", k, None, actual[k]))
-    for k, mv in model.items():
+    for k, mv in list(model.items()):
         if k not in actual:
             continue
         av = actual[k]
@@ -390,7 +401,12 @@ def plain_dict(d):
 class OptionAlphabet:
     """long options of a real parser, read off the parser objects"""
     STR_VALUES = ["out/plot.pdf", "results.zip", "a_b.json", "run1/log.txt",
-                  "map.yaml", "traj_ref.txt", "fig.png", "table.csv"]
+                  "map.yaml", "traj_ref.txt", "fig.png", "table.csv",
+                  # legal file names with characters that mean something to
+                  # an option parser
+                  "runs/seed=3/ape.pdf", "k=v=w.zip", "my plot.png",
+                  "a,b.csv", "tr\u00e4j.zip", "./x:y.json", "50%.txt",
+                  "@home.txt", "x=-1.zip"]
     INT_VALUES = ["0", "1", "5", "500", "12", "1000", "+7", "007"]
     NEG_INT_VALUES = ["-1", "-3", "-10"]
     FLOAT_VALUES = ["0.5", "5", "1e-3", "2.5e2", "0", "100.0", "0.01", "3",
@@ -729,6 +745,8 @@ class C18(Check):
                         if rng.random() < 0.7:
                             g = sg.gen_group(rng, k, dflt[k])
                             content[k] = sg.user_value(dflt[k], g[1:], k)
+                if rng.random() < 0.08:
+                    content[sg.RESERVED_KEY] = rng.choice([False, False, True])
                 if rng.random() < 0.3:
                     # a key that is neither a setting nor an option; some are
                     # names the container has for other reasons (dict methods)
@@ -1005,6 +1023,9 @@ class C18(Check):
             named = model_set(tm, op["tokens"])
             other = model.files[op["other"]]
             for k, v in other.items():
+                if k == sg.RESERVED_KEY:
+                    sim.probe("merge_file_with_lock_flag")
+                    continue
                 if k in tm:
                     if op["soft"]:
                         if not same(_plain(tm[k]), v):
@@ -1191,13 +1212,21 @@ class C18(Check):
         if v:
             return v
         with_c, without = results[0]["namespace"], results[1]["namespace"]
+        if results[0].get("accepts_unknown_after_merge"):
+            return self._fail("run_c", "container-unlocked-by-config",
+                              config_keys=sorted(cfg))
+        if sg.RESERVED_KEY in cfg:
+            sim.probe("run_c_config_with_lock_flag")
         for k, val in cfg.items():
+            if k == sg.RESERVED_KEY:
+                continue
             if k not in with_c or not same(with_c[k], val):
                 return self._fail("run_c", "config-value-not-in-namespace",
                                   key=k, config=val,
                                   namespace=with_c.get(k, "<absent>"))
             if k in without and not same(without[k], val):
                 sim.probe("run_c_overrode_cli")
+        with_c = {k: v for k, v in with_c.items() if k != sg.RESERVED_KEY}
         for k, val in without.items():
             if k in cfg or k == "config":
                 continue
